@@ -42,9 +42,9 @@ Section C06Exact.
       assert (Hi' : incl ps (params_without_self f)) by (intros q Hq; apply Hi; now right).
       destruct (p_ann p) as [a|] eqn:Ea; [|reflexivity].
       assert (Hok : okann a) by (apply (Hann p a); [apply Hi; now left | exact Ea]).
-      destruct (kw_get (p_name p) (c_kwargs c)); [apply bind_tc; [now apply chk_tc | intro; now apply IH]|].
-      destruct (p_default p); [apply bind_tc; [now apply chk_tc | intro; now apply IH]|].
-      destruct (_ && _); [apply bind_tc; [now apply chk_tc | intro; now apply IH] | reflexivity].
+      destruct (if takes_keyword p then kw_get (p_name p) (c_kwargs c) else None); [apply bind_tc; [now apply chk_tc | intro; now apply IH]|].
+      destruct (_ && _); [apply bind_tc; [now apply chk_tc | intro; now apply IH]|].
+      destruct (p_default p); [apply bind_tc; [now apply chk_tc | intro; now apply IH] | reflexivity].
     Qed.
 
     Lemma chk_all_tc a : okann a -> forall l st, tc_out (chk_all check consumes f c inst a l st).
